@@ -92,7 +92,7 @@ func TestCheck(t *testing.T) {
 		}
 	}
 	if thorough {
-		rep.Bound("dag_nodes", "4 slots: all 65536 adjacency matrices x every set of absent sinks (17^4 = 83521 lock graphs)")
+		rep.Bound("dag_nodes", "4 slots: all 65536 adjacency matrices x every set of absent sinks (17^4 = 83521 lock graphs) x {Init, AddNodes+AddEdges}; upgrading DAG additionally with violated constraints on p0 (Init)")
 		rep.Bound("dag_map_orders", "all permutations of the node keys (<= 24)")
 	} else {
 		rep.Bound("dag_nodes", "3 slots (9^3 = 729 lock graphs: every digraph on <= 3 nodes) in full; 4 slots (17^4 = 83521 lock graphs: every digraph on <= 4 nodes) with Init construction only and without the violated-constraint variant")
